@@ -19,6 +19,7 @@
    bytes (UTF-8 validity is a Rust type invariant and is not modelled); [usize] lengths are N;
    i32/i64 fields are Z with their ranges stated in [req_wf]. *)
 From SV Require Import Base.Prelude Base.Bytes.
+From SV Require Model.Cql.     (* C01's model: used for utf8_valid (the specification of "UTF-8") and in PART 3 *)
 From Coq Require Import Ascii String.
 Open Scope N_scope.
 
@@ -98,11 +99,16 @@ Definition opt_ok (P : Z -> Prop) (o : option Z) : Prop :=
   match o with Some z => P z | None => True end.
 Definition qparams_wf (p : qparams) : Prop :=
   opt_ok i64_ok (qp_timestamp p) /\ opt_ok i32_ok (qp_page_size p).
+(* a Rust &str / String is well-formed UTF-8 (std::str::from_utf8 accepts it: Cql.utf8_valid) *)
+Definition text_ok (b : bytes) : Prop := Cql.utf8_valid b = true.
+Definition stmt_wf (s : stmt) : Prop := match s with SQuery t => text_ok t | SPrepared _ => True end.
 Definition req_wf (r : request) : Prop :=
   match r with
-  | Query _ p => qparams_wf p
+  | Query t p => text_ok t /\ qparams_wf p
+  | Prepare t => text_ok t
   | Execute _ _ p => qparams_wf p
-  | Batch _ _ _ _ _ ts => opt_ok i64_ok ts
+  | Batch _ stmts _ _ _ ts => Forall stmt_wf stmts /\ opt_ok i64_ok ts
+  | Startup opts => Forall (fun kv => text_ok (fst kv) /\ text_ok (snd kv)) opts
   | _ => True
   end.
 
@@ -449,7 +455,7 @@ Definition set_stream (s : Z) (f : bytes) : bytes :=
 Inductive parse_err :=
 | PTooShort | PBadVersion | PBadLength | PBadFlags | PNoCompression | PDecompress | PBadOpcode
 | PTrailing | PBadConsistency | PBadSerialConsistency | PNegativeLength | PBadValueLength
-| PBadQueryFlags | PNonCanonicalFlags | PNamedValues | PBadBatchType | PBadStatementKind | PBadBatchFlags | PBadEvent.
+| PBadUtf8 | PBadQueryFlags | PNonCanonicalFlags | PNamedValues | PBadBatchType | PBadStatementKind | PBadBatchFlags | PBadEvent.
 
 Definition reader (A : Type) : Type := bytes -> result parse_err (A * bytes).
 Definition rret {A} (a : A) : reader A := fun b => Ok (a, b).
@@ -474,12 +480,13 @@ Definition p_byte : reader N :=
 Definition p_short : reader N := x <- p_take 2 ;; rret (be_dec x).
 Definition p_int : reader Z := x <- p_take 4 ;; rret (dec_signed x).
 Definition p_long : reader Z := x <- p_take 8 ;; rret (dec_signed x).
-(* [string] = [short] n + n bytes;  [short bytes] likewise *)
-Definition p_string : reader bytes := n <- p_short ;; p_take n.
+(* [string] = [short] n + n bytes of UTF-8;  [short bytes] = [short] n + n arbitrary bytes *)
+Definition p_utf8 (s : bytes) : reader bytes := if Cql.utf8_valid s then rret s else rfail PBadUtf8.
+Definition p_string : reader bytes := n <- p_short ;; s <- p_take n ;; p_utf8 s.
 Definition p_short_bytes : reader bytes := n <- p_short ;; p_take n.
-(* [long string] = [int] n + n bytes *)
+(* [long string] = [int] n + n bytes of UTF-8 *)
 Definition p_long_string : reader bytes :=
-  n <- p_int ;; if (n <? 0)%Z then rfail PNegativeLength else p_take (Z.to_N n).
+  n <- p_int ;; if (n <? 0)%Z then rfail PNegativeLength else s <- p_take (Z.to_N n) ;; p_utf8 s.
 (* [bytes] = [int] n + n bytes, n < 0 means null *)
 Definition p_bytes : reader (option bytes) :=
   n <- p_int ;; if (n <? 0)%Z then rret None else x <- p_take (Z.to_N n) ;; rret (Some x).
@@ -897,8 +904,9 @@ Inductive mty := TInt | TText | TBlob.
 Definition mini_ser (v : mval) (t : mty) : option cell :=
   match v, t with
   | MInt z, TInt => Some (CVal (sbe 4 z))        (* exact_type_check!(typ, Int) *)
-  | MText b, TText => Some (CVal b)
-  | MBlob b, TBlob => Some (CVal b)
+  (* String / Vec<u8>: type check, then CellWriter::set_value (CellOverflowError from 2^31 bytes on) *)
+  | MText b, TText => if blen b <? 2147483648 then Some (CVal b) else None
+  | MBlob b, TBlob => if blen b <? 2147483648 then Some (CVal b) else None
   | MNull, _ => Some CNull                       (* Option::None: set_null, no type check *)
   | MUnset, _ => Some CUnset
   | _, _ => None
@@ -936,3 +944,24 @@ Definition big_body_len (k : big_kind) (n : N) : N :=
   end.
 Definition big_outcome (k : big_kind) (n : N) : result ser_err N :=
   if n <? 2147483648 then Ok (big_body_len k n) else Err (big_err k).
+
+(* ---- the value codec of C01 (Model/Cql.v) as an instance of [vser] ------------------------------ *)
+(* A bind marker of column type t receives a Cql.cell (null / unset / a CqlValue); the contents of
+   the resulting [value] are what C01's ser_value writes into a sized CellWriter. *)
+Definition c01_vser (c : Cql.cell) (t : Cql.ctype) : option cell :=
+  match c with
+  | Cql.CNull => Some CNull
+  | Cql.CUnset => Some CUnset
+  | Cql.CVal v => match Cql.ser_value true t v with Ok b => Some (CVal b) | Err _ => None end
+  end.
+(* the tie's carriers and column types inside C01's universe *)
+Definition mval_cell (v : mval) : Cql.cell :=
+  match v with
+  | MInt z => Cql.CVal (Cql.CInt z)
+  | MText b => Cql.CVal (Cql.CText b)
+  | MBlob b => Cql.CVal (Cql.CBlob b)
+  | MNull => Cql.CNull
+  | MUnset => Cql.CUnset
+  end.
+Definition mty_ctype (t : mty) : Cql.ctype :=
+  Cql.TNative match t with TInt => Cql.NInt | TText => Cql.NText | TBlob => Cql.NBlob end.
